@@ -129,7 +129,7 @@ func (w *c13World) observe(k string, t int) (got, want string, pan string) {
 			// dry run validates names: an error and no report, whatever happened before
 			return fmt.Sprintf("%q err!=nil:%v", buf.String(), err != nil), `"" err!=nil:true`, p
 		}
-		return fmt.Sprintf("%q err=%v", buf.String(), err), fmt.Sprintf("%q err=<nil>", model.RenderRoot(m, model.DefaultFmt)+fmt.Sprintf("\n%d directories, %d files\n", d, f)), p
+		return fmt.Sprintf("%q err=%v", model.NormSummary(buf.String()), err), fmt.Sprintf("%q err=<nil>", model.NormSummary(model.RenderRoot(m, model.DefaultFmt)+fmt.Sprintf("\n%d directories, %d files\n", d, f))), p
 	case "K":
 		// a real Mkdir into a fresh directory: rejected (nothing created anywhere) iff a name is not a valid path
 		// element, else exactly the tree is created
